@@ -22,7 +22,8 @@ META = {
              'ookup tables (same length / ends / byte sum / CRC-32); via_d'
              'ataset: multi-scale datasets with per-scale block sizes writ'
              'ten through PrecomputedIO; huge_channel: 18 and 84 MiB chann'
-             'els (24-bit table offsets).'),
+             'els (24-bit table offsets).'
+             " Round 12: regular label structure (labels depending on one coordinate, flat-periodic, tiled)."),
     "trusted_base": ["vlib/refs/cseg_spec.py decoder/validator written from "
                      "the format description; cross-checked against a "
                      "hand-assembled file at start-up"],
